@@ -91,6 +91,7 @@ func loadFindings() []Finding {
 type Baseline struct {
 	Obligations map[string][]string `json:"obligations"` // fn -> obligation names proved on the reference tree
 	Open        map[string][]string `json:"open"`        // fn -> obligations NOT discharged (or only slowly) on the reference tree: not covered by the baseline check
+	Complete    []string            `json:"complete"`    // functions whose every obligation discharged on the reference tree: ALL their obligations (also new ones) must discharge
 }
 
 func loadBaseline(id string) *Baseline {
@@ -187,9 +188,17 @@ func cmdCheck(args []string) {
 				for _, o := range base.Obligations[n] {
 					want[o] = true
 				}
+				complete := false
+				for _, c := range base.Complete {
+					if c == n {
+						complete = true
+					}
+				}
 				var kept []*Oblig
 				for _, ob := range vc.obligs {
-					if want[ob.Name] {
+					// a function that was completely proved safe must stay completely proved:
+					// obligations generated by new code in it are checked as well
+					if want[ob.Name] || complete {
 						kept = append(kept, ob)
 					}
 				}
@@ -284,6 +293,12 @@ func cmdCheck(args []string) {
 		violLines = append(violLines, v)
 	}
 	if writeBaseline {
+		for _, t := range tvcs {
+			if len(newBase.Open[t.vc.fnName]) == 0 && len(t.vc.unsupported) == 0 && len(newBase.Obligations[t.vc.fnName]) > 0 {
+				newBase.Complete = append(newBase.Complete, t.vc.fnName)
+			}
+		}
+		sort.Strings(newBase.Complete)
 		os.MkdirAll(filepath.Join(verifDir, "baseline"), 0o755)
 		for k := range newBase.Obligations {
 			sort.Strings(newBase.Obligations[k])
@@ -309,7 +324,7 @@ func cmdCheck(args []string) {
 				byKind[k]++
 			}
 		}
-		res.extra["baseline"] = map[string]interface{}{"recorded_obligations": nrec, "open_obligations_not_covered": nopen, "open_by_kind": byKind,
+		res.extra["baseline"] = map[string]interface{}{"completely_proved_functions": len(base.Complete), "recorded_obligations": nrec, "open_obligations_not_covered": nopen, "open_by_kind": byKind,
 			"meaning": "baseline mode: the obligations that discharged (fast) on the reference tree must keep discharging; the open ones were never proved, so a defect behind them is not excluded by this check (listed per function in baseline/" + id + ".json)"}
 	}
 	wall := time.Since(t0).Seconds()
